@@ -73,7 +73,10 @@ def get_dimensionality(
 
     # 1x1x1 system
     if dist_matrix_radii_mic_1x is None:
-        pos_1x = system.get_positions()
+        # Atoms stored outside the cell are folded back along the periodic
+        # directions: the neighbour search only looks at a finite number of
+        # periodic copies around the cell.
+        pos_1x = system.get_positions(wrap=True)
         _, dist_matrix_mic_1x = get_displacement_tensor(
             pos_1x,
             cell_1x,
@@ -102,7 +105,7 @@ def get_dimensionality(
             repeats = np.array([1, 1, 1])
             repeats[pbc] = 2
             system_2x = system.repeat(repeats)
-            pos_2x = system_2x.get_positions()
+            pos_2x = system_2x.get_positions(wrap=True)
             cell_2x = system_2x.get_cell()
             _, dist_matrix_mic_2x = get_displacement_tensor(
                 pos_2x,
